@@ -542,7 +542,17 @@ func (bf *builtFile) position(x int) string {
 	return "x_in_data"
 }
 
-const hangLimit = 120 * time.Second
+// hangLimit: wall-clock limit for one image (normally milliseconds). On a
+// machine loaded with 16 thorough processes plus other jobs single images
+// were seen to take > 120 s (mmap / unmap / rename stalls) without being
+// reproducible, which made the thorough run inconclusive; the thorough tier
+// therefore waits longer before it declares a hang.
+var hangLimit = func() time.Duration {
+	if os.Getenv("VERIF_TIER") == "thorough" {
+		return 600 * time.Second
+	}
+	return 120 * time.Second
+}()
 
 // run evaluates the images with nworkers goroutines; leaked mappings are
 // released every few hundred images; a supervisor watches for hangs.
